@@ -8,9 +8,8 @@ use serde_json::Value;
 use std::path::PathBuf;
 use std::sync::atomic::{AtomicU64, Ordering};
 use std::time::Duration;
-use tokio::io::{AsyncBufReadExt, AsyncWriteExt, BufReader};
-use tokio::net::UnixStream;
-use tokio::net::unix::OwnedWriteHalf;
+use tokio::io::{AsyncBufReadExt, AsyncRead, AsyncWriteExt, BufReader};
+use tokio::net::{TcpStream, UnixStream};
 use tokio::sync::mpsc;
 use worterbuch::Config;
 
@@ -45,42 +44,91 @@ impl WireServer {
     }
 }
 
+enum WriteHalf {
+    Unix(tokio::net::unix::OwnedWriteHalf),
+    Tcp(tokio::net::tcp::OwnedWriteHalf),
+}
+
 pub struct Session {
-    write: OwnedWriteHalf,
+    write: Option<WriteHalf>,
     rx: mpsc::UnboundedReceiver<Option<String>>,
+    reader: tokio::task::JoinHandle<()>,
     pub welcome: Value,
     pub closed: bool,
+}
+
+fn spawn_reader(r: impl AsyncRead + Unpin + Send + 'static) -> (mpsc::UnboundedReceiver<Option<String>>, tokio::task::JoinHandle<()>) {
+    let (tx, rx) = mpsc::unbounded_channel();
+    // reader task: the harness never stops reading (a client that stops reading is behaviour, not input)
+    let h = tokio::spawn(async move {
+        let mut lines = BufReader::new(r).lines();
+        loop {
+            match lines.next_line().await {
+                Ok(Some(l)) => {
+                    if tx.send(Some(l)).is_err() {
+                        break;
+                    }
+                }
+                _ => {
+                    tx.send(None).ok();
+                    break;
+                }
+            }
+        }
+    });
+    (rx, h)
 }
 
 impl Session {
     pub async fn connect(sock: &PathBuf) -> Result<Session, String> {
         let stream = UnixStream::connect(sock).await.map_err(|e| format!("connect: {e}"))?;
         let (r, w) = stream.into_split();
-        let (tx, rx) = mpsc::unbounded_channel();
-        // reader task: the harness never stops reading (a client that stops reading is behaviour, not input)
-        tokio::spawn(async move {
-            let mut lines = BufReader::new(r).lines();
-            loop {
-                match lines.next_line().await {
-                    Ok(Some(l)) => {
-                        if tx.send(Some(l)).is_err() {
-                            break;
-                        }
-                    }
-                    _ => {
-                        tx.send(None).ok();
-                        break;
-                    }
-                }
-            }
-        });
-        let mut s = Session { write: w, rx, welcome: Value::Null, closed: false };
-        match s.recv(Duration::from_secs(10)).await {
+        let (rx, reader) = spawn_reader(r);
+        Session { write: Some(WriteHalf::Unix(w)), rx, reader, welcome: Value::Null, closed: false }.await_welcome().await
+    }
+
+    /// `linger0`: closing the socket sends RST instead of FIN (see `reset`)
+    pub async fn connect_tcp(port: u16, linger0: bool) -> Result<Session, String> {
+        let stream = TcpStream::connect(("127.0.0.1", port)).await.map_err(|e| format!("connect: {e}"))?;
+        stream.set_nodelay(true).ok();
+        if linger0 {
+            socket2::SockRef::from(&stream).set_linger(Some(Duration::ZERO)).map_err(|e| format!("linger: {e}"))?;
+        }
+        let (r, w) = stream.into_split();
+        let (rx, reader) = spawn_reader(r);
+        Session { write: Some(WriteHalf::Tcp(w)), rx, reader, welcome: Value::Null, closed: false }.await_welcome().await
+    }
+
+    async fn await_welcome(mut self) -> Result<Session, String> {
+        match self.recv(Duration::from_secs(10)).await {
             Recv::Msg(v) => {
-                s.welcome = v;
-                Ok(s)
+                self.welcome = v;
+                Ok(self)
             }
             other => Err(format!("no welcome message: {other:?}")),
+        }
+    }
+
+    /// half close: the server reads end-of-file, the harness keeps reading
+    pub async fn shutdown_write(&mut self) {
+        match self.write.take() {
+            Some(WriteHalf::Unix(mut w)) => {
+                w.shutdown().await.ok();
+            }
+            Some(WriteHalf::Tcp(mut w)) => {
+                w.shutdown().await.ok();
+            }
+            None => {}
+        }
+    }
+
+    /// abortive close: both halves are dropped without a shutdown first; with `linger0` the peer sees a connection reset
+    pub fn reset(mut self) {
+        self.reader.abort();
+        match self.write.take() {
+            Some(WriteHalf::Unix(w)) => w.forget(),
+            Some(WriteHalf::Tcp(w)) => w.forget(),
+            None => {}
         }
     }
 
@@ -89,7 +137,11 @@ impl Session {
     }
 
     pub async fn send_raw(&mut self, bytes: &[u8]) -> bool {
-        self.write.write_all(bytes).await.is_ok() && self.write.flush().await.is_ok()
+        match self.write.as_mut() {
+            Some(WriteHalf::Unix(w)) => w.write_all(bytes).await.is_ok() && w.flush().await.is_ok(),
+            Some(WriteHalf::Tcp(w)) => w.write_all(bytes).await.is_ok() && w.flush().await.is_ok(),
+            None => false,
+        }
     }
 
     pub async fn send_line(&mut self, line: &str) -> bool {
